@@ -857,5 +857,200 @@ pub proof fn thm_detection_exact<C: Ciphersuite>(res: Result<Signature<C>, Error
     }
 }
 
+// ---------------------------------------------------------------------------------------------------
+// T6b (C05): a share is accepted in a session only if it IS that session's honest share
+// The share z (for instance the honest share of participant idA in session A = (spA, vkA, aA, nonceA)) submitted under the claimed
+// identifier idB in session B is accepted there iff it equals B's honest share for idB as a scalar.  Sessions that differ in the
+// message, any commitment, the participant set, the group key or the claimed identifier hash different byte strings into rho / c
+// (T6c below), so -- short of a hash collision or an accidental scalar coincidence -- the share is rejected.
+//@serves C05
+pub proof fn thm_share_accepted_only_if_session_honest<C: Ciphersuite>(spB: SigningPackage<C>, vkB: Element<C>, aB: Seq<Scalar<C>>, ysB: Map<Identifier<C>, VerifyingShare<C>>,
+        nonceB: spec_fn(Identifier<C>) -> (Scalar<C>, Scalar<C>), idB: Identifier<C>, z: Scalar<C>)
+    requires spB.signing_commitments@.contains_key(idB), honest_commitments::<C>(spB, nonceB), ysB[idB].0.0 == gmul::<C>(poly::<AL<C>>(aB, idB.0.0)),
+    ensures sp_share_ok::<C>(spB, sp_rho_map::<C>(spB, vkB), idB, z, ysB[idB].0.0, sp_c::<C>(spB, vkB)) <==> z == honest_share::<C>(spB, vkB, aB, nonceB, idB)
+{ thm_share_ok_iff_honest::<C>(spB, vkB, aB, ysB, nonceB, idB, z); }
+
+//@serves C05
+pub proof fn thm_cross_session_share<C: Ciphersuite>(spA: SigningPackage<C>, vkA: Element<C>, aA: Seq<Scalar<C>>, nonceA: spec_fn(Identifier<C>) -> (Scalar<C>, Scalar<C>), idA: Identifier<C>,
+        spB: SigningPackage<C>, vkB: Element<C>, aB: Seq<Scalar<C>>, ysB: Map<Identifier<C>, VerifyingShare<C>>, nonceB: spec_fn(Identifier<C>) -> (Scalar<C>, Scalar<C>), idB: Identifier<C>)
+    requires spB.signing_commitments@.contains_key(idB), honest_commitments::<C>(spB, nonceB), ysB[idB].0.0 == gmul::<C>(poly::<AL<C>>(aB, idB.0.0)),
+    ensures sp_share_ok::<C>(spB, sp_rho_map::<C>(spB, vkB), idB, honest_share::<C>(spA, vkA, aA, nonceA, idA), ysB[idB].0.0, sp_c::<C>(spB, vkB))
+        <==> honest_share::<C>(spA, vkA, aA, nonceA, idA) == honest_share::<C>(spB, vkB, aB, nonceB, idB)
+{ thm_share_ok_iff_honest::<C>(spB, vkB, aB, ysB, nonceB, idB, honest_share::<C>(spA, vkA, aA, nonceA, idA)); }
+
+// ---------------------------------------------------------------------------------------------------
+// T6c (C05): what is hashed determines the session (injectivity of the encodings; NO collision-resistance claim)
+//@serves C05
+pub proof fn lemma_concat_inj_left(h1: Seq<u8>, r1: Seq<u8>, h2: Seq<u8>, r2: Seq<u8>)
+    requires h1 + r1 == h2 + r2, h1.len() == h2.len()
+    ensures h1 == h2, r1 == r2
+{
+    let s1 = h1 + r1; let s2 = h2 + r2;
+    assert(s1.len() == h1.len() + r1.len() && s2.len() == h2.len() + r2.len());
+    assert(h1 =~= h2) by { assert forall|i: int| 0 <= i < h1.len() implies h1[i] == h2[i] by { assert(s1[i] == h1[i]); assert(s2[i] == h2[i]); } }
+    assert(r1 =~= r2) by { assert forall|i: int| 0 <= i < r1.len() implies r1[i] == r2[i] by { assert(s1[h1.len() + i] == r1[i]); assert(s2[h2.len() + i] == r2[i]); } }
+}
+
+//@serves C05
+pub proof fn lemma_concat_inj_right(a1: Seq<u8>, t1: Seq<u8>, a2: Seq<u8>, t2: Seq<u8>)
+    requires a1 + t1 == a2 + t2, t1.len() == t2.len()
+    ensures a1 == a2, t1 == t2
+{
+    assert((a1 + t1).len() == a1.len() + t1.len() && (a2 + t2).len() == a2.len() + t2.len());
+    lemma_concat_inj_left(a1, t1, a2, t2);
+}
+
+// an Identifier is determined by its encoding, a non-identity element by its encoding
+//@serves C05
+pub proof fn lemma_enc_id_inj<C: Ciphersuite>(i: Identifier<C>, j: Identifier<C>)
+    requires enc_id::<C>(i) == enc_id::<C>(j)
+    ensures i == j
+{
+    FF::<C>::ax_ser_deser(i.0.0); FF::<C>::ax_ser_deser(j.0.0);
+    assert(i.0.0 == j.0.0);
+    assert(i.0 == j.0);
+}
+
+//@serves C05
+pub proof fn lemma_enc_el_inj<C: Ciphersuite>(a: Element<C>, b: Element<C>)
+    requires a != e0::<C>(), b != e0::<C>(), enc_el::<C>(a) == enc_el::<C>(b)
+    ensures a == b
+{ GG::<C>::ax_eser_deser(a); GG::<C>::ax_eser_deser(b); }
+
+pub open spec fn no_identity_upto<C: Ciphersuite>(items: Seq<(Identifier<C>, crate::round1::SigningCommitments<C>)>, n: int) -> bool
+{ forall|k: int| 0 <= k < n ==> !sc_has_identity::<C>((#[trigger] items[k]).1) }
+
+// width of one list entry
+pub open spec fn item_width<C: Ciphersuite>() -> int { (FF::<C>::spec_ns() + 2 * GG::<C>::spec_ne()) as int }
+
+//@serves C05
+pub proof fn lemma_encode_list_len<C: Ciphersuite>(items: Seq<(Identifier<C>, crate::round1::SigningCommitments<C>)>, n: int)
+    requires 0 <= n <= items.len(), no_identity_upto::<C>(items, n)
+    ensures spec_encode_list::<C>(items, n).len() == n * item_width::<C>()
+    decreases n
+{
+    let w = item_width::<C>();
+    if n > 0 {
+        lemma_encode_list_len::<C>(items, n - 1);
+        let it = items[n - 1];
+        assert(!sc_has_identity::<C>(it.1));
+        FF::<C>::ax_ser_len(it.0.0.0); GG::<C>::ax_eser_len(it.1.hiding.0.0); GG::<C>::ax_eser_len(it.1.binding.0.0);
+        assert(n * w == (n - 1) * w + w) by(nonlinear_arith);
+    } else {
+        assert(0 * w == 0);
+    }
+}
+
+// equal encodings of equally many entries: the entries agree in identifier, hiding and binding commitment
+//@serves C05
+pub proof fn lemma_encode_list_injective_n<C: Ciphersuite>(items1: Seq<(Identifier<C>, crate::round1::SigningCommitments<C>)>, items2: Seq<(Identifier<C>, crate::round1::SigningCommitments<C>)>, n: int)
+    requires 0 <= n <= items1.len(), n <= items2.len(), no_identity_upto::<C>(items1, n), no_identity_upto::<C>(items2, n),
+        spec_encode_list::<C>(items1, n) == spec_encode_list::<C>(items2, n),
+    ensures forall|k: int| 0 <= k < n ==> (#[trigger] items1[k]).0 == items2[k].0 && items1[k].1.hiding.0.0 == items2[k].1.hiding.0.0 && items1[k].1.binding.0.0 == items2[k].1.binding.0.0
+    decreases n
+{
+    if n > 0 {
+        let a = items1[n - 1]; let b = items2[n - 1];
+        assert(!sc_has_identity::<C>(a.1) && !sc_has_identity::<C>(b.1));
+        let p1 = spec_encode_list::<C>(items1, n - 1); let p2 = spec_encode_list::<C>(items2, n - 1);
+        FF::<C>::ax_ser_len(a.0.0.0); GG::<C>::ax_eser_len(a.1.hiding.0.0); GG::<C>::ax_eser_len(a.1.binding.0.0);
+        FF::<C>::ax_ser_len(b.0.0.0); GG::<C>::ax_eser_len(b.1.hiding.0.0); GG::<C>::ax_eser_len(b.1.binding.0.0);
+        lemma_concat_inj_right(p1 + enc_id::<C>(a.0) + enc_el::<C>(a.1.hiding.0.0), enc_el::<C>(a.1.binding.0.0), p2 + enc_id::<C>(b.0) + enc_el::<C>(b.1.hiding.0.0), enc_el::<C>(b.1.binding.0.0));
+        lemma_concat_inj_right(p1 + enc_id::<C>(a.0), enc_el::<C>(a.1.hiding.0.0), p2 + enc_id::<C>(b.0), enc_el::<C>(b.1.hiding.0.0));
+        lemma_concat_inj_right(p1, enc_id::<C>(a.0), p2, enc_id::<C>(b.0));
+        lemma_enc_id_inj::<C>(a.0, b.0);
+        lemma_enc_el_inj::<C>(a.1.hiding.0.0, b.1.hiding.0.0);
+        lemma_enc_el_inj::<C>(a.1.binding.0.0, b.1.binding.0.0);
+        lemma_encode_list_injective_n::<C>(items1, items2, n - 1);
+    }
+}
+
+// ... and WITHOUT assuming equal lengths: the total length n * (Ns + 2 Ne) determines n
+//@serves C05
+pub proof fn lemma_encode_list_injective<C: Ciphersuite>(items1: Seq<(Identifier<C>, crate::round1::SigningCommitments<C>)>, n1: int,
+        items2: Seq<(Identifier<C>, crate::round1::SigningCommitments<C>)>, n2: int)
+    requires 0 <= n1 <= items1.len(), 0 <= n2 <= items2.len(), no_identity_upto::<C>(items1, n1), no_identity_upto::<C>(items2, n2),
+        spec_encode_list::<C>(items1, n1) == spec_encode_list::<C>(items2, n2),
+    ensures n1 == n2,
+        forall|k: int| 0 <= k < n1 ==> (#[trigger] items1[k]).0 == items2[k].0 && items1[k].1.hiding.0.0 == items2[k].1.hiding.0.0 && items1[k].1.binding.0.0 == items2[k].1.binding.0.0
+{
+    let w = item_width::<C>();
+    lemma_encode_list_len::<C>(items1, n1); lemma_encode_list_len::<C>(items2, n2);
+    GG::<C>::ax_ne_positive();
+    assert(n1 == n2) by(nonlinear_arith) requires n1 * w == n2 * w, w > 0;
+    lemma_encode_list_injective_n::<C>(items1, items2, n1);
+}
+
+// at the level of signing packages: the encoded commitment list determines the participant set and everybody's commitments
+//@serves C05
+pub proof fn thm_encoded_list_determines_commitments<C: Ciphersuite>(sp1: SigningPackage<C>, sp2: SigningPackage<C>)
+    requires sp1.signing_commitments@.dom().finite(), sp2.signing_commitments@.dom().finite(),
+        !items_have_identity::<C>(sp_items::<C>(sp1)), !items_have_identity::<C>(sp_items::<C>(sp2)),
+        spec_encode_list::<C>(sp_items::<C>(sp1), sp_items::<C>(sp1).len() as int) == spec_encode_list::<C>(sp_items::<C>(sp2), sp_items::<C>(sp2).len() as int),
+    ensures sp1.signing_commitments@.dom() == sp2.signing_commitments@.dom(),
+        forall|id: Identifier<C>| #[trigger] sp1.signing_commitments@.contains_key(id) ==>
+            sp1.signing_commitments@[id].hiding.0.0 == sp2.signing_commitments@[id].hiding.0.0 && sp1.signing_commitments@[id].binding.0.0 == sp2.signing_commitments@[id].binding.0.0
+{
+    let m1 = sp1.signing_commitments@; let m2 = sp2.signing_commitments@;
+    let i1 = sp_items::<C>(sp1); let i2 = sp_items::<C>(sp2);
+    let k1 = sorted_seq(m1.dom()); let k2 = sorted_seq(m2.dom());
+    lemma_sorted_exists::<C>(m1.dom()); lemma_sorted_exists::<C>(m2.dom());
+    lemma_encode_list_injective::<C>(i1, i1.len() as int, i2, i2.len() as int);
+    assert(k1 =~= k2) by { assert forall|k: int| 0 <= k < k1.len() implies k1[k] == k2[k] by { assert(i1[k].0 == k1[k]); assert(i2[k].0 == k2[k]); } }
+    assert(m1.dom() == k1.to_set());
+    assert forall|id: Identifier<C>| #[trigger] m1.contains_key(id) implies m1[id].hiding.0.0 == m2[id].hiding.0.0 && m1[id].binding.0.0 == m2[id].binding.0.0 by {
+        assert(k1.to_set().contains(id));
+        let k = choose|k: int| 0 <= k < k1.len() && k1[k] == id;
+        assert(i1[k] == (id, m1[id])); assert(i2[k] == (id, m2[id]));
+    }
+}
+
+// the challenge preimage enc(R) || enc(PK) || msg determines R, PK and the message
+//@serves C05
+pub proof fn lemma_challenge_preimage_injective<C: Ciphersuite>(r1: Element<C>, vk1: Element<C>, msg1: Seq<u8>, r2: Element<C>, vk2: Element<C>, msg2: Seq<u8>)
+    requires r1 != e0::<C>(), vk1 != e0::<C>(), r2 != e0::<C>(), vk2 != e0::<C>(),
+        enc_el::<C>(r1) + enc_el::<C>(vk1) + msg1 == enc_el::<C>(r2) + enc_el::<C>(vk2) + msg2,
+    ensures r1 == r2, vk1 == vk2, msg1 == msg2
+{
+    GG::<C>::ax_eser_len(r1); GG::<C>::ax_eser_len(vk1); GG::<C>::ax_eser_len(r2); GG::<C>::ax_eser_len(vk2);
+    lemma_concat_inj_left(enc_el::<C>(r1) + enc_el::<C>(vk1), msg1, enc_el::<C>(r2) + enc_el::<C>(vk2), msg2);
+    lemma_concat_inj_left(enc_el::<C>(r1), enc_el::<C>(vk1), enc_el::<C>(r2), enc_el::<C>(vk2));
+    lemma_enc_el_inj::<C>(r1, r2); lemma_enc_el_inj::<C>(vk1, vk2);
+}
+
+// the binding-factor preimage  prefix || enc(id)  determines the prefix and the identifier (in particular: same prefix, different
+// participants => different preimages)
+//@serves C05
+pub proof fn lemma_rho_preimage_injective<C: Ciphersuite>(prefix1: Seq<u8>, i: Identifier<C>, prefix2: Seq<u8>, j: Identifier<C>)
+    requires prefix1 + enc_id::<C>(i) == prefix2 + enc_id::<C>(j)
+    ensures prefix1 == prefix2, i == j
+{
+    FF::<C>::ax_ser_len(i.0.0); FF::<C>::ax_ser_len(j.0.0);
+    lemma_concat_inj_right(prefix1, enc_id::<C>(i), prefix2, enc_id::<C>(j));
+    lemma_enc_id_inj::<C>(i, j);
+}
+
+//@serves C05
+pub proof fn lemma_rho_preimage_injective_id<C: Ciphersuite>(prefix: Seq<u8>, i: Identifier<C>, j: Identifier<C>)
+    requires prefix + enc_id::<C>(i) == prefix + enc_id::<C>(j)
+    ensures i == j
+{ lemma_rho_preimage_injective::<C>(prefix, i, prefix, j); }
+
+// the binding-factor prefix  enc(PK) || H4(msg) || H5(list) || extra  determines the group key (its first, fixed-width field)
+//@serves C05
+pub proof fn lemma_bf_prefix_binds_key<C: Ciphersuite>(vk1: Element<C>, msg1: Seq<u8>, items1: Seq<(Identifier<C>, crate::round1::SigningCommitments<C>)>, extra1: Seq<u8>,
+        vk2: Element<C>, msg2: Seq<u8>, items2: Seq<(Identifier<C>, crate::round1::SigningCommitments<C>)>, extra2: Seq<u8>)
+    requires vk1 != e0::<C>(), vk2 != e0::<C>(), spec_bf_prefix::<C>(vk1, msg1, items1, extra1) == spec_bf_prefix::<C>(vk2, msg2, items2, extra2)
+    ensures vk1 == vk2
+{
+    GG::<C>::ax_eser_len(vk1); GG::<C>::ax_eser_len(vk2);
+    let t1 = C::spec_H4(msg1) + C::spec_H5(spec_encode_list::<C>(items1, items1.len() as int)) + extra1;
+    let t2 = C::spec_H4(msg2) + C::spec_H5(spec_encode_list::<C>(items2, items2.len() as int)) + extra2;
+    assert(spec_bf_prefix::<C>(vk1, msg1, items1, extra1) =~= enc_el::<C>(vk1) + t1);
+    assert(spec_bf_prefix::<C>(vk2, msg2, items2, extra2) =~= enc_el::<C>(vk2) + t2);
+    lemma_concat_inj_left(enc_el::<C>(vk1), t1, enc_el::<C>(vk2), t2);
+    lemma_enc_el_inj::<C>(vk1, vk2);
+}
+
 } // verus!
 }
